@@ -31,7 +31,7 @@ PY = {
                                                     "TableCollection.has_index"},
     "C08": lambda mod, q: mod == "stats" or (mod == "trees" and q.startswith("TreeSequence.")),   # refined by STAT_PARAMS below
     # every public method that takes an id / index / position from the caller
-    "C09": lambda mod, q: (mod == "trees" and (q.startswith("Tree.") or q.startswith("TreeSequence."))) or (mod == "tables") or (mod == "genotypes"),
+    "C09": lambda mod, q: (mod == "trees" and (q.startswith("Tree.") or q.startswith("TreeSequence."))) or (mod == "tables") or (mod == "genotypes") or (mod == "vcf"),
     "C10": lambda mod, q: (mod in ("trees", "tables") and q in {"load", "TreeSequence.load", "TableCollection.load", "TreeSequence.load_tables"})
     or (mod == "util" and q in {"raise_known_file_format_errors", "convert_file_like_to_open_file"}),
     "C11": lambda mod, q: mod in ("tables", "trees") and q.split(".")[-1] in {
